@@ -415,13 +415,18 @@ CHECKS = {
              "(level = number of catching frames), OwnMessage, EscapeIffForwarded, Isolation (interleaved = alone). Every terminal "
              "behaviour is executed for real on fresh threads (two-thread ones in lock-step with TLC's schedule) comparing catch_panic "
              "results, backtrace queries, the nesting level after every step (hook), the count of panics reaching the previously "
-             "installed hook and escapes. Random 200-step scripts on 8 concurrent threads are validated by Trace_Panic.",
+             "installed hook and escapes. Random 200-step scripts on 8 concurrent threads are validated by Trace_Panic; so are scripts run by 8 threads "
+             "of a fresh process that race the first installation of the hook (WfPanicInstall is the step-level model of that race).",
         exhaustive=True,
-        assumptions=["fallback mode Abort is not executed (it terminates the process)", "the hook is installed before the scripts run (precondition of C19)"],
+        assumptions=["fallback mode Abort is not executed (it terminates the process)", "in the MC stages the hook is installed before the scripts run; the first-install-race stage starts fresh processes whose 8 threads all call panic_catcher_set_hook() first, concurrently (model: WfPanicInstall)"],
         stages=[
             mc("one-thread", "MC_C19.tla", dict(quick="MC_C19_1q.cfg", thorough="MC_C19_1t.cfg"), replay_cmd="replay-panic"),
             mc("two-threads", "MC_C19.tla", dict(quick="MC_C19_2q.cfg", thorough="MC_C19_2t.cfg"), replay_cmd="replay-panic"),
             trace("concurrent-scripts", "Trace_Panic", ["gen-panic", "--len", "200"], 6, 250, shards=dict(quick=1, thorough=4)),
+            mc("install-once", "WfPanicInstall.tla", "WfPanicInstall.cfg", replay=False, workers=2),
+            mc("install-flag-is-racy", "WfPanicInstall.tla", "WfPanicInstall_flag.cfg", replay=False, workers=1,
+               expect_violation="RecordedIfInstalled"),
+            trace("first-install-race", "Trace_Panic", ["gen-panic", "--raceonly"], 60, 3000, shards=dict(quick=1, thorough=4)),
         ],
     ),
     "C16": dict(
